@@ -30,8 +30,8 @@ type searchRow struct {
 }
 
 func searchObserve(p, src string) searchRow {
-	strs := hxpat.Strings(p, 3, 4, false)
-	fstrs := hxpat.Strings(p, 3, 4, true)
+	strs := hxpat.Strings(p, 3, 5, false)
+	fstrs := hxpat.Strings(p, 3, 5, true)
 	row := searchRow{P: hx.Hex(p), Strs: hx.HexList(strs), FStrs: hx.HexList(fstrs), Src: src, Cfg: map[string]hxpat.Res{}}
 	row.Cfg["ext"] = hxpat.ViaMatcher(p, ES|EXT, strs)      // bash: [[ s == p ]] / case with extglob
 	row.Cfg["noext"] = hxpat.ViaRegexp(p, ES, strs)         // bash: case with shopt -u extglob
